@@ -220,7 +220,7 @@ def tail(h):
         return h.fail("tail.no_raise", f"raised {out}")
     rows = z3.And(*fr.axis.facts(), *draws.facts())
     yB = out["y_test_pred_B"]
-    h.ensures("every_bootstrapped_margin_in_range", z3.Implies(rows, z3.And(-1 <= yB.t, yB.t <= 1)))
+    h.ensures("every_bootstrapped_margin_in_range", z3.Implies(rows, z3.And(-1 <= yB.t, yB.t <= 1)), replay=lambda ev: {"target": "verif_replays:run_seed_demo", "args": ["C06b"], "check": "result['exit'] == 0"})
     zB = env1["z_test_pred_B"]
     h.ensures("every_bootstrapped_turnout_factor_non_negative", z3.Implies(rows, zB.t >= 0))
     ypred, zpred = out["y_test_pred"], out["z_test_pred"]
